@@ -12,7 +12,9 @@ import (
 	"fmt"
 	"io"
 	"math/rand/v2"
+	"os"
 	"sort"
+	"strings"
 	"sync"
 	"sync/atomic"
 	"time"
@@ -116,8 +118,39 @@ type vlpLane struct {
 	Read       atomic.Int64
 	WriterDone atomic.Bool // CloseWrite/Close issued
 	ReaderDone atomic.Bool
-	WClosed    atomic.Bool // set immediately before the writer's CloseWrite/Close call
-	Reset      atomic.Bool // lane was reset/stopped on purpose (C32 workloads)
+	WClosed    atomic.Bool            // set immediately before the writer's CloseWrite/Close call
+	Reset      atomic.Bool            // lane was reset/stopped on purpose (C32 workloads)
+	WS, RS     atomic.Pointer[Stream] // writer-side / reader-side stream objects (for the stuck dump)
+}
+
+// vlpDumpStream reads a stream's flow-control state under its own gates (white box), for
+// the diagnostic text of a stuck-run violation.
+func vlpDumpStream(s *Stream) string {
+	if s == nil {
+		return "<nil>"
+	}
+	var out string
+	if !s.IsReadOnly() {
+		s.outgate.lock()
+		out = fmt.Sprintf("out{buf=[%d,%d) flushed=%d win=%d maxsent=%d unsent=%v acked=%v blocked=%v closed=%v reset=%v}", s.out.start, s.out.end, s.outflushed, s.outwin, s.outmaxsent, s.outunsent, s.outacked, s.outblocked, s.outclosed, s.outreset)
+		s.outUnlock()
+	}
+	if !s.IsWriteOnly() {
+		s.ingate.lock()
+		out += fmt.Sprintf(" in{buf=[%d,%d) win=%d maxbuf=%d size=%d set=%v sendmax=%v closed=%v}", s.in.start, s.in.end, s.inwin, s.inmaxbuf, s.insize, s.inset, s.insendmax, s.inclosed)
+		s.inUnlock()
+	}
+	return out + fmt.Sprintf(" state=%b", s.state.load())
+}
+
+func vlpDumpConn(c *Conn) string {
+	var out string
+	c.runOnLoop(context.Background(), func(now time.Time, c *Conn) {
+		out = fmt.Sprintf("outflow{max=%d used=%d} inflow{used=%d sentLimit=%d newLimit=%d credit=%d sent=%v} loss{timer=%v ptoArmed=%v ptoExpired=%v backoff=%d inflight=%d cwnd=%d} alive=%v",
+			c.streams.outflow.max, c.streams.outflow.used, c.streams.inflow.usedLimit, c.streams.inflow.sentLimit, c.streams.inflow.newLimit, c.streams.inflow.credit.Load(), c.streams.inflow.sent,
+			c.loss.timer.Sub(now), c.loss.ptoTimerArmed, c.loss.ptoExpired, c.loss.ptoBackoffCount, c.loss.cc.bytesInFlight, c.loss.cc.congestionWindow, c.isAlive())
+	})
+	return out
 }
 
 type vlpRunResult struct {
@@ -352,6 +385,7 @@ func vlpRunTransfer(seed uint64, rc *vlpRunConfig, setup func(p *vlpPair), viol 
 		defer wg.Done()
 		defer pending.Add(-1)
 		buf := make([]byte, spec.ChunkMax)
+		ln.WS.Store(s)
 		var off int64
 		resetAt := int64(-1)
 		if fromInitiator {
@@ -426,6 +460,7 @@ func vlpRunTransfer(seed uint64, rc *vlpRunConfig, setup func(p *vlpPair), viol 
 		defer wg.Done()
 		defer pending.Add(-1)
 		defer ln.ReaderDone.Store(true)
+		ln.RS.Store(s)
 		buf := make([]byte, spec.ReadMax)
 		var off int64
 		stopAt := int64(-1)
@@ -595,12 +630,24 @@ func vlpRunTransfer(seed uint64, rc *vlpRunConfig, setup func(p *vlpPair), viol 
 	}
 
 	// fault phase, then clean phase with a bound in virtual time
+	dbg := os.Getenv("VERIF_DEBUG") != ""
+	lastDbg := time.Now()
 	waitUntil := func(d time.Duration) bool {
 		deadline := time.Now().Add(d)
 		for time.Now().Before(deadline) {
 			time.Sleep(20 * time.Millisecond)
 			if pending.Load() == 0 {
 				return true
+			}
+			if dbg && time.Since(lastDbg) >= 10*time.Second {
+				lastDbg = time.Now()
+				tmu.Lock()
+				var st []string
+				for _, ln := range res.Lanes {
+					st = append(st, fmt.Sprintf("s%d/l%d w%d r%d/%d", ln.ID, ln.Lane, ln.Written.Load(), ln.Read.Load(), ln.Total))
+				}
+				tmu.Unlock()
+				fmt.Printf("DBG t=%ds clean=%v pending=%d dgrams=%v dropped=%v %v\n", time.Since(start)/time.Second, p.Net.clean.Load(), pending.Load(), p.Net.Sent, p.Net.Dropped, st)
 			}
 		}
 		return pending.Load() == 0
@@ -621,12 +668,12 @@ func vlpRunTransfer(seed uint64, rc *vlpRunConfig, setup func(p *vlpPair), viol 
 		var st []string
 		for _, ln := range res.Lanes {
 			if !ln.ReaderDone.Load() || !ln.WriterDone.Load() {
-				st = append(st, fmt.Sprintf("stream %d lane %d: written %d read %d of %d (writerDone=%v readerDone=%v reset=%v)", ln.ID, ln.Lane, ln.Written.Load(), ln.Read.Load(), ln.Total, ln.WriterDone.Load(), ln.ReaderDone.Load(), ln.Reset.Load()))
+				st = append(st, fmt.Sprintf("stream %d lane %d: written %d read %d of %d (writerDone=%v readerDone=%v reset=%v)\n   writer side: %s\n   reader side: %s", ln.ID, ln.Lane, ln.Written.Load(), ln.Read.Load(), ln.Total, ln.WriterDone.Load(), ln.ReaderDone.Load(), ln.Reset.Load(), vlpDumpStream(ln.WS.Load()), vlpDumpStream(ln.RS.Load())))
 			}
 		}
 		tmu.Unlock()
 		sort.Strings(st)
-		viol("stuck-after-faults-stopped", "%d tasks still pending %d virtual ms after start (network clean for the last %d s): %v", pending.Load(), res.VirtualMs, rc.CleanBoundS, st)
+		viol("stuck-after-faults-stopped", "%d tasks still pending %d virtual ms after start (network clean for the last %d s):\n %s\n client conn: %s\n server conn: %s\n datagrams sent %v dropped %v", pending.Load(), res.VirtualMs, rc.CleanBoundS, strings.Join(st, "\n "), vlpDumpConn(p.Cli), vlpDumpConn(p.Srv), p.Net.Sent, p.Net.Dropped)
 	}
 	cancel()
 	p.vlpClose()
